@@ -47,6 +47,12 @@ def Err.name : Err → String
 
 abbrev R (α : Type) := Except Err α
 
+instance instDecEqExcept {ε α : Type} [DecidableEq ε] [DecidableEq α] : DecidableEq (Except ε α)
+  | .ok a, .ok b => if h : a = b then isTrue (by rw [h]) else isFalse (by intro h'; cases h'; exact h rfl)
+  | .error a, .error b => if h : a = b then isTrue (by rw [h]) else isFalse (by intro h'; cases h'; exact h rfl)
+  | .ok _, .error _ => isFalse (by intro h; cases h)
+  | .error _, .ok _ => isFalse (by intro h; cases h)
+
 /-- `MBXML.UINTVAR_MAX`, `MBXML.SINTVAR_MAX` as extracted from the class on this run -/
 abbrev UINTVAR_MAX : Nat := Dmr.Gen.Mbxml.UINTVAR_MAX
 abbrev SINTVAR_MAX : Nat := Dmr.Gen.Mbxml.SINTVAR_MAX
